@@ -196,3 +196,112 @@ pub fn run_random(nruns: u64, len: u64, out_path: &str) -> Value {
     let events = t.finish();
     json!({"runs": nruns, "steps": steps, "events": events})
 }
+
+
+/// C03 at session level: real PeerCrypto pairs after a real handshake, driven by PeerCrypto::every_second (which also
+/// drives key rotation); every data datagram is delivered at once and replayed k = 0..5 housekeeping rounds later.
+/// One logical run per direction, in the vocabulary of NonceWindow (slot = key id on the wire, gen = how often the
+/// receiver's key in that slot was replaced, `use` = the sender switched to a slot).
+pub fn run_session(nruns: u64, seconds: u64, out_path: &str) -> Value {
+    use super::conn::*;
+    use crate::crypto::MessageResult;
+    set_speeds([600.0, 500.0, 400.0]);
+    let mut t = Trace::create(out_path);
+    let mut rng = rng(5);
+    let mut steps = 0u64;
+    let mut logical_runs = 0u64;
+    for run in 0..nruns {
+        let crypto = [pw_crypto(1, "pw"), pw_crypto(2, "pw")];
+        let (a, b, first) = handshake(&crypto);
+        let mut ends = [a, b];
+        // per direction d (0: A->B, 1: B->A): events, receiver slot fingerprints, generations, counters, sender's slot
+        let mut ev: [Vec<Value>; 2] = [vec![], vec![]];
+        let mut fps: [[[u8; 16]; 4]; 2] = [[[0; 16]; 4]; 2];
+        let mut gen: [[u64; 4]; 2] = [[0; 4]; 2];
+        let mut count: [[u64; 4]; 2] = [[0; 4]; 2];
+        let mut cur: [u64; 2] = [0, 0];
+        for d in 0..2 {
+            let recv = 1 - d;
+            for k in 0..4 {
+                fps[d][k] = ends[recv].verif_core().unwrap().verif_slot_fingerprint(k);
+            }
+        }
+        // pending replays: (due second, direction, slot, gen, ctr, bytes)
+        let mut replays: Vec<(u64, usize, u64, u64, u64, Vec<u8>)> = vec![];
+        let mut in_flight: Vec<(usize, Vec<u8>)> = vec![(0, first)];
+        macro_rules! observe {
+            () => {
+                for d in 0..2usize {
+                    let (snd, recv) = (d, 1 - d);
+                    for k in 0..4usize {
+                        let f = ends[recv].verif_core().unwrap().verif_slot_fingerprint(k);
+                        if f != fps[d][k] {
+                            fps[d][k] = f;
+                            gen[d][k] += 1;
+                            count[d][k] = 0;
+                            ev[d].push(json!({"op":"rotate","slot":k,"sending":false}));
+                        }
+                    }
+                    let c = ends[snd].verif_core().unwrap().verif_current_key() as u64;
+                    if c != cur[d] {
+                        cur[d] = c;
+                        ev[d].push(json!({"op":"use","slot":c}));
+                    }
+                }
+            };
+        }
+        for sec in 0..seconds {
+            // rotation datagrams in flight are delivered first (reliable network)
+            for (to, bytes) in in_flight.drain(..).collect::<Vec<_>>() {
+                let _ = feed(&mut ends[to], &bytes);
+                observe!();
+            }
+            // housekeeping tick of both ends (order varies)
+            let order = if rng.gen_bool(0.5) { [0usize, 1] } else { [1, 0] };
+            for i in order {
+                steps += 1;
+                let o = tick(&mut ends[i]);
+                // end i is the receiver of direction 1 - i
+                ev[1 - i].push(json!({"op":"tick"}));
+                if !o.out.is_empty() {
+                    in_flight.push((1 - i, o.out));
+                }
+                observe!();
+            }
+            // replays that are due (after this second's ticks)
+            let due: Vec<_> = replays.iter().filter(|r| r.0 <= sec).cloned().collect();
+            replays.retain(|r| r.0 > sec);
+            for (_, d, slot, g, c, bytes) in due {
+                steps += 1;
+                let acc = open_data(&mut ends[1 - d], &bytes).is_some();
+                ev[d].push(json!({"op":"deliver","slot":slot,"gen":g,"ctr":c,"acc":acc}));
+            }
+            // fresh payload in both directions, delivered at once, replayed k = 0..5 rounds later
+            for d in 0..2usize {
+                for _ in 0..rng.gen_range(0..3) {
+                    steps += 1;
+                    let payload: Vec<u8> = (0..20).map(|i| (i as u8) ^ (sec as u8)).collect();
+                    let dg = seal_data(&mut ends[d], &payload);
+                    let keyid = dg[0] as u64;
+                    let slot = keyid % 4;
+                    count[d][slot as usize] += 1;
+                    let (g, c) = (gen[d][slot as usize], count[d][slot as usize]);
+                    ev[d].push(json!({"op":"seal","keyid":keyid,"slot":slot,"gen":g,"ctr":c,"delta":1}));
+                    let acc = open_data(&mut ends[1 - d], &dg).map(|p| p == payload).unwrap_or(false);
+                    ev[d].push(json!({"op":"deliver","slot":slot,"gen":g,"ctr":c,"acc":acc}));
+                    let k = rng.gen_range(0..=5u64);
+                    replays.push((sec + k, d, slot, g, c, dg));
+                }
+            }
+        }
+        for d in 0..2 {
+            logical_runs += 1;
+            t.ev(json!({"op":"reset","run":run * 2 + d as u64 + 1,"algo":"session"}));
+            for e in ev[d].drain(..) {
+                t.ev(e);
+            }
+        }
+    }
+    let events = t.finish();
+    json!({"runs": logical_runs, "steps": steps, "events": events})
+}
